@@ -3,6 +3,8 @@
 set -e
 cd /verif/spec
 for f in *.tla; do
+  # modules written for Apalache (typed, EXTENDS Apalache) are parsed by Apalache when C04 runs
+  if grep -q "EXTENDS.*Apalache" "$f"; then continue; fi
   java -cp /opt/veriftools/tla/tla2tools.jar:/opt/veriftools/tla/CommunityModules-deps.jar tla2sany.SANY "$f" >/tmp/sany.$$ 2>&1 || { cat /tmp/sany.$$; rm -f /tmp/sany.$$; exit 1; }
 done
 rm -f /tmp/sany.$$
